@@ -27,8 +27,12 @@ pub struct Case {
 const POOL4: [&str; 5] = ["Ca", "Cab", "Cb", "Cc", "Cd"];
 
 /// Constant predicates: truth is fixed by their text.
-pub const TRUE_FORMS: [&str; 3] = ["all()", "not(any())", "all(all())"];
-pub const FALSE_FORMS: [&str; 3] = ["any()", "not(all())", "any(any())"];
+/// Slot 3's forms extend slot 1's forms of the OPPOSITE truth value (all() / all(any()), any() / any(all())): a
+/// predicate that is a token-prefix of another one with a different value.
+pub const TRUE_FORMS: [&str; 3] = ["all()", "not(any())", "any(all())"];
+pub const FALSE_FORMS: [&str; 3] = ["any()", "not(all())", "all(any())"];
+/// `--cfgflags`: the three flag predicates; the third is the key-value form of the first (independent in rustc).
+pub const FLAG_FORMS: [&str; 3] = ["vp0", "vp1", "vp0 = \"x\""];
 
 thread_local! {
     /// `--cfgflags <tv>`: predicates are the plain cfg names vp0, vp1, vp2 whose truth comes from real `--cfg`
@@ -39,7 +43,7 @@ thread_local! {
 pub fn const_truth(p: &str) -> bool {
     let q: String = p.chars().filter(|c| !c.is_whitespace()).collect();
     if let Some(tv) = FLAG_TRUTH.with(|f| f.get()) {
-        if let Some(i) = q.strip_prefix("vp").and_then(|s| s.parse::<u32>().ok()) {
+        if let Some(i) = FLAG_FORMS.iter().position(|f| f.chars().filter(|c| !c.is_whitespace()).collect::<String>() == q) {
             return tv & (1 << i) != 0;
         }
     }
@@ -112,7 +116,9 @@ fn body(world_ty: &str, ids: &WorldIds, queries: &[(Mac, Vec<Param>)], decorated
         let mut push = String::new();
         for (i, p) in strip_params(params) {
             match p.ty {
-                PType::Comp(_) | PType::OneOf(_) => write!(push, "row.push(p{}.0); ", i).unwrap(),
+                // a named component also reports `ecs_component_id!(C)` resolved against the archetype being visited
+                PType::Comp(ref c) => write!(push, "row.push(p{}.0); row.push(7000000 + ecs_component_id!({}) as i64); ", i, c).unwrap(),
+                PType::OneOf(_) => write!(push, "row.push(p{}.0); ", i).unwrap(),
                 PType::Entity(_) | PType::EntityWild | PType::EntityAny | PType::Direct(_) | PType::DirectWild | PType::DirectAny => write!(push, "row.push(1000000 + p{}.archetype_id() as i64); ", i).unwrap(),
             }
         }
@@ -163,9 +169,10 @@ fn expected_trace(ids: &WorldIds, queries: &[(Mac, Vec<Param>)]) -> Vec<String> 
         };
         let mut rows: Vec<Vec<i64>> = Vec::new();
         let row_for = |ai: usize, e: i64, bound: &Vec<String>| -> Vec<i64> {
-            enabled.iter().zip(bound.iter()).map(|(p, b)| match p.ty {
-                PType::Comp(_) | PType::OneOf(_) => ai as i64 * 1000 + e * 100 + comp_index(b),
-                _ => 1000000 + ids.archs[ai].1 as i64,
+            enabled.iter().zip(bound.iter()).flat_map(|(p, b)| match p.ty {
+                PType::Comp(_) => vec![ai as i64 * 1000 + e * 100 + comp_index(b), 7000000 + ids.archs[ai].2.iter().find(|c| &c.0 == b).map(|c| c.1 as i64).unwrap_or(-1)],
+                PType::OneOf(_) => vec![ai as i64 * 1000 + e * 100 + comp_index(b)],
+                _ => vec![1000000 + ids.archs[ai].1 as i64],
             }).collect()
         };
         for (ai, (an, _, _)) in ids.archs.iter().enumerate() {
@@ -335,6 +342,25 @@ pub fn emit(thorough: bool, dir: &str, only: Option<&str>, shards: usize, cfgfla
         }
     }
 
+    // two archetypes sharing a component at DIFFERENT positions, explicit ids on archetypes and components
+    let small: [Option<u8>; 3] = [None, Some(0), Some(255)];
+    let mut nm = 0;
+    for a0 in small { for a1 in small { for c00 in small { for c01 in small { for c10 in small { for c11 in small {
+        nm += 1;
+        if nm % (if thorough { 3 } else { 23 }) != 0 {
+            continue;
+        }
+        let archs = vec![
+            RArch { name: "A0".into(), id: a0, cfg: None, comps: vec![RComp { name: "Ca".into(), id: c00, cfg: None }, RComp { name: "Cb".into(), id: c01, cfg: None }] },
+            RArch { name: "A1".into(), id: a1, cfg: None, comps: vec![RComp { name: "Cb".into(), id: c10, cfg: None }, RComp { name: "Cc".into(), id: c11, cfg: None }] },
+        ];
+        if assign_ids(&archs, &const_truth).is_ok() {
+            let q = vec![(MACS[nm % 5], vec![Param { ty: PType::Comp("Cb".into()), is_mut: false, cfg: None }, Param { ty: PType::EntityWild, is_mut: false, cfg: None }]),
+                         (MACS[(nm + 2) % 5], vec![Param { ty: PType::OneOf(vec!["Ca".into(), "Cc".into()]), is_mut: false, cfg: None }, Param { ty: PType::Comp("Cb".into()), is_mut: true, cfg: None }])];
+            cases.push(Case { name: format!("i{:04}m", nm), prop: "C15", archs, queries: q, with_twin: false });
+        }
+    }}}}}}
+
     // ---------------- C16: decorated world + decorated queries vs undecorated twin ----------------
     // sites: A0, A0.Ca, A0.Cb, A1, A1.Cb, A1.Cc in {none, slot0, slot1, slot2}; only decorations with >= 2 distinct
     // slots and mixed truth are compiled (the others are covered by the library-driven enumeration).
@@ -366,7 +392,7 @@ pub fn emit(thorough: bool, dir: &str, only: Option<&str>, shards: usize, cfgfla
                     return None;
                 }
                 if flag_tv.is_some() {
-                    return Some(format!("vp{}", slot - 1));
+                    return Some(FLAG_FORMS[slot - 1].to_string());
                 }
                 let j = used.iter().position(|u| *u == slot).unwrap();
                 let t = tv & (1 << j) != 0;
